@@ -1,6 +1,8 @@
 (** * C12: all per-module correspondence / property checks in one place. *)
-From Irismod Require Genesis.Record Genesis.Htlc Genesis.Mt.
+From Irismod Require Genesis.Record Genesis.Htlc Genesis.Mt Genesis.Coinswap Genesis.Token.
 
 Definition check_record := Genesis.Record.check_record.
 Definition check_htlc := Genesis.Htlc.check_htlc.
 Definition check_mt := Genesis.Mt.check_mt.
+Definition check_coinswap := Genesis.Coinswap.check_coinswap.
+Definition check_token := Genesis.Token.check_token.
